@@ -580,6 +580,17 @@ int vnadata_convert(const vnadata_t *vdp_in, vnadata_t *vdp_out,
     }
 
     /*
+     * An in-place conversion of a 0 x 0 matrix to Zin makes a 1 x 0
+     * vector, which still counts as having one port: make sure the z0
+     * vector covers it before changing anything.
+     */
+    if (vdp_out == vdp_in && (group & CONV_MASK) == CONV_xtoI) {
+	if (_vnadata_extend_p(vdip_in, 1) == -1) {
+	    return -1;
+	}
+    }
+
+    /*
      * Do the conversion.
      */
     switch (group) {
@@ -677,14 +688,6 @@ int vnadata_convert(const vnadata_t *vdp_in, vnadata_t *vdp_out,
 	    vdp_out->vd_columns = vdp_out->vd_rows;
 	}
 	vdp_out->vd_rows = 1;
-
-	/*
-	 * A 1 x 0 vector still counts as having one port: make sure
-	 * the z0 vector covers it.
-	 */
-	if (_vnadata_extend_p(vdip_in, 1) == -1) {
-	    return -1;
-	}
 
 	/*
 	 * Zero the vacated cells to maintain the invariant that cells
